@@ -133,11 +133,7 @@ impl State {
 pub uninterp spec fn str_bytes(s: Xstr) -> Seq<u8>;
 #[verifier::external_body] fn verif_str_bytes(s: &Xstr) -> (r: Vec<u8>) ensures r@ == str_bytes(*s), r@.len() * 8 <= usize::MAX / 2 { unimplemented!() }
 impl Xerr { #[verifier::external_body] pub fn type_not_supported(val: Cell) -> Xerr { unimplemented!() } }
-// cells are finite trees (ASSUMED): an element of a vector is smaller than the vector, a value no bigger than its tagged form
-pub uninterp spec fn cell_depth(c: Cell) -> nat;
-#[verifier::external_body] proof fn axiom_depth_elem(v: Xvec, i: int) requires 0 <= i < v@.len() ensures cell_depth(v@[i]) < cell_depth(Cell::Vector(v)) {}
-#[verifier::external_body] proof fn axiom_depth_strip(c: Cell) ensures cell_depth(strip(c)) <= cell_depth(c) {}
-
+//@include preamble/cell_depth.rs
 // the bits one element of a `>bitstr` list contributes: an int 0..255 one byte, a string its bytes, a bit-string
 // its bits, a nested vector the concatenation of its elements in order; anything else is an error
 spec fn item_bits(x: Cell) -> Option<Seq<bool>>
